@@ -43,6 +43,7 @@ func main() {
 	runBuildMatrix()
 	runConfigProduct()
 	runSpecialParity()
+	runAutoMask()
 	runCharacterSweeps()
 	runAllLengths()
 	flushMatrixFailures()
@@ -57,6 +58,13 @@ func replay() {
 	}
 	fmt.Printf("replay %+v\n", c)
 	switch c.Kind {
+	case "automask":
+		var a autoCase
+		if err := mc.LoadReplay(chk.ReplayFile(), &a); err == nil {
+			l := chk.NewLocal()
+			autoMaskOne(l, a)
+			l.Merge()
+		}
 	case "encode", "build":
 		l := chk.NewLocal()
 		cls, what := runMatrixCase(l, c)
